@@ -5,13 +5,14 @@ use crate::engine::*;
 use crate::exec;
 use crate::gen::*;
 use crate::model::canon::*;
+use crate::model::verify::*;
 use crate::types::*;
 use proptest::prelude::*;
 use scratchstack_aws_signature::canonical::{canonicalize_query_to_string, query_string_to_normalized_map};
 use serde::{Deserialize, Serialize};
 use serde_json::json;
 
-pub const RULE: &str = "enumerated completely: every byte 0-255 as a parameter name and as a value in every spelling (literal where a string allows it, %HH, %hh, '+'); every two-character escape %xy over all 128x128 ASCII pairs in name and value position plus the truncated forms; every ordering of every 2- and 3-element subset of a prefix-related name set {a, a-, a., a0, a%, a=, aa, A, a~, ''} (separator bytes below and above '='); generated: parameter multisets with clustered names, two independent orders/spellings/'&&' paddings/missing '=' of each, raw random query strings. Oracle: crate output == reference (once-encoded pairs sorted by (name, value) bytewise, X-Amz-Signature removed, '&'-joined) or both fail with MalformedQueryString/400; two spellings/orders of one multiset give the same string; decoding the output yields exactly the input multiset minus X-Amz-Signature; the output over a corpus is identical in >= 8 (quick) / 32 (thorough) freshly spawned processes (different hash seeds). Non-trivial: >= 2 parameters and (repeated name, prefix-related names, empty name/value, escaped byte or '+'); distinct by canonical multiset.";
+pub const RULE: &str = "enumerated completely: every byte 0-255 as a parameter name and as a value in every spelling (literal where a string allows it, %HH, %hh, '+'); every two-character escape %xy over all 128x128 ASCII pairs in name and value position plus the truncated forms; every ordering of every 2- and 3-element subset of a prefix-related name set {a, a-, a., a0, a%, a=, aa, A, a~, ''} (separator bytes below and above '='); generated: parameter multisets with clustered names, two independent orders/spellings/'&&' paddings/missing '=' of each, raw random query strings; query strings of 2^k-1 ... 2^k+2 segments for k = 5..14 in five shapes (also end to end, in the URL and as a folded form body). Oracle: crate output == reference (once-encoded pairs sorted by (name, value) bytewise, X-Amz-Signature removed, '&'-joined) or both fail with MalformedQueryString/400; two spellings/orders of one multiset give the same string; decoding the output yields exactly the input multiset minus X-Amz-Signature; the output over a corpus is identical in >= 8 (quick) / 32 (thorough) freshly spawned processes (different hash seeds). Non-trivial: >= 2 parameters and (repeated name, prefix-related names, empty name/value, escaped byte or '+'); distinct by canonical multiset.";
 
 #[derive(Clone, Debug, Serialize, Deserialize, PartialEq, Eq)]
 pub struct RawQuery {
@@ -38,7 +39,77 @@ pub fn subs() -> Vec<Box<dyn AnySub>> {
             check: check_multiset,
         }),
         Box::new(Sub { name: "raw", quick: 30_000, thorough: 600_000, strat: raw_query, check: check_raw }),
+        Box::new(EnumSub { name: "many-parameters", exhaustive: true, list: many_list, check: check_many }),
     ]
+}
+
+#[derive(Clone, Debug, Serialize, Deserialize)]
+pub struct Many {
+    pub count: usize,
+    /// 0 distinct names in descending order, 1 names only, 2 empty segments followed by two pairs, 3 one name repeated, 4 empty segments in between
+    pub shape: u8,
+}
+
+/// Numbers of '&'-separated segments at powers of two (2^5 ... 2^14) and just beside them.
+pub fn many_list(t: Tier) -> Vec<Many> {
+    let mut out = Vec::new();
+    for k in 5u32..=14 {
+        if t == Tier::Quick && [6, 7, 9, 13].contains(&k) {
+            continue;
+        }
+        for d in [-1i64, 0, 1, 2] {
+            for shape in 0..5u8 {
+                out.push(Many { count: ((1i64 << k) + d) as usize, shape });
+            }
+        }
+    }
+    out
+}
+
+pub fn many_query(m: &Many) -> String {
+    let n = m.count;
+    match m.shape {
+        0 => (0..n).rev().map(|i| format!("p{:05}={}", i, i)).collect::<Vec<_>>().join("&"),
+        1 => (0..n).map(|i| format!("n{}", (i * 7919) % n)).collect::<Vec<_>>().join("&"),
+        2 => format!("{}b=2&a=1", "&".repeat(n.saturating_sub(2))),
+        3 => (0..n).map(|i| format!("k=v{}", (i * 31) % 97)).collect::<Vec<_>>().join("&"),
+        _ => (0..n).map(|i| if i % 2 == 0 { format!("z{}=", n - i) } else { String::new() }).collect::<Vec<_>>().join("&"),
+    }
+}
+
+pub fn check_many(m: &Many, cc: &mut CaseCtx) -> CheckResult {
+    let query = many_query(m);
+    let mut inner = CaseCtx::default();
+    let short = |f: Failure| Failure::new(&f.sig, format!("{} segments (shape {}), {} bytes: {}", m.count, m.shape, query.len(), f.msg.chars().take(240).collect::<String>()));
+    check_raw(&RawQuery { query: query.clone() }, &mut inner).map_err(short)?;
+    cc.class("many-segments");
+    cc.class_if(m.count > 1024, "more-than-1024-segments");
+    cc.nontrivial(digest_of(&[&m.count.to_le_bytes(), &[m.shape]]));
+    if m.shape == 0 {
+        cc.sample(json!({"segments": m.count, "shape": m.shape, "bytes": query.len()}));
+    }
+    // end to end (URL and folded form body) where the request target can carry it
+    if query.len() < 60_000 {
+        use crate::model::sign::{sign, SignSpec};
+        for in_body in [false, true] {
+            let mut base = WireRequest { method: if in_body { "POST".into() } else { "GET".into() }, uri: if in_body { "/".into() } else { format!("/?{}", query) }, version: 11, headers: vec![("Host".into(), B::from("h.example"))], body: B::default() };
+            if in_body {
+                base.headers.push(("Content-Type".into(), B::from("application/x-www-form-urlencoded")));
+                base.body = B::from(query.as_str());
+            }
+            let cfg = ServerConfig { fold: in_body, ..ServerConfig::default() };
+            let spec = SignSpec::basic(Carrier::Header, "AKIDEXAMPLE", "secret", "20150830T123600Z");
+            let Ok(signed) = sign(&base, &cfg, &spec) else { continue };
+            let prov = ProviderScript { keys: vec![KeyEntry { access_key: "AKIDEXAMPLE".into(), token: None, secret: "secret".into(), derive_as: None, principal: PrincipalSpec::Empty, session: vec![] }], ..ProviderScript::default() };
+            let case = Case { req: signed.req, cfg, prov };
+            let (a, o) = (analyze(&case), crate::exec::run(&case));
+            if a.verdict().is_specified() {
+                check_against_model(&a, &o).map_err(short)?;
+                cc.class(if in_body { "end-to-end-folded-body" } else { "end-to-end-url" });
+            }
+        }
+    }
+    Ok(())
 }
 
 fn raw_query() -> BoxedStrategy<RawQuery> {
